@@ -2,9 +2,8 @@
 
 use std::path::Path;
 
-use proptest::prelude::*;
 use serde_json::Value;
-use vmodel::engine::{fingerprint, Failure, ShardCtx, Tier, Verdict};
+use vmodel::engine::{ShardCtx, Tier, Verdict};
 
 use super::{
     fuzzdrv,
@@ -28,9 +27,8 @@ pub fn check() -> Check {
         run_shard,
         prepare: Some(prepare),
         replay: |sub, case| -> Verdict {
-            if sub == "sink-kinds" {
-                let c = vmodel::lockstep::case_from_json(case).map_err(|e| Failure::new(sub, case.clone(), "a well-formed case", e))?;
-                return vmodel::sinkkinds::run(&c).map(|_| ()).map_err(|(e, o)| Failure::new(sub, case.clone(), e, o));
+            if sub == super::shapes::SUB {
+                return super::shapes::replay(case, vmodel::sinkkinds::Diff::Flush);
             }
             replay_lockstep(sub, case, FLAGS)
         },
@@ -38,7 +36,7 @@ pub fn check() -> Check {
         floor_thorough: 20_000,
         rule: "Random sessions as in C01/C06/C13 (typing, editing, recall, completion, Enter with handler output, help, parse errors of derived commands, Cli::write, set_prompt, construction through the builder and through Cli::new) on a recording sink that counts bytes written since the last flush, with short writes on and off. \
                After every API call that returns Ok the counter must be 0. Non-trivial = the call produced at least two sink writes; distinct by (kind of call, bytes written). Evaluations count every API call (input byte, application write, prompt change) that was followed by the oracle, plus one per session; a coverage-guided campaign (libFuzzer + ASan, 16 processes, same oracle inside the target) searches the same session space and what it keeps is re-run and classified here. \
-               Sink kinds: the same session strategies on a zero-sized sink (`struct Uart;`, state in a thread-local), a 512-byte over-aligned sink and `&mut` of a sink, with the same invariant after construction and after every call (sub `sink-kinds`).",
+               Sink kinds: the same session strategies on a zero-sized sink (`struct Uart;`, state in a thread-local), a 512-byte over-aligned sink and `&mut` of a sink, with the same invariant after construction and after every call (sub `api-shapes`; also `[u8; N]`, `&mut [u8]` and the builder's default buffers, other builder call orders).",
         assumptions: &["the sink never returns Ok(0) for a non-empty buffer (that would violate the embedded_io::Write contract)"],
         ..DEFAULT
     }
@@ -64,18 +62,6 @@ fn run_shard(ctx: &ShardCtx) {
     run_lockstep_shard(ctx, "flush", "C15", ctx.tier.pick(1_500_000, 15_000_000), opts(ctx.tier), SETS, FLAGS);
     // what the coverage-guided campaign (prepare) kept, re-run and classified in the plain harness build
     fuzzdrv::replay_lock_corpus(ctx, "C15", "flush", FLAGS);
-    // the same sessions on sinks of other types (zero-sized, large, a reference)
-    let n = std::cell::RefCell::new(0u64);
-    let strat = prop_oneof![4 => vmodel::lockstep::case_strategy(opts(ctx.tier), SETS), 1 => vmodel::lockstep::tab_session_strategy(true)];
-    ctx.run_prop("sink-kinds", ctx.tier.pick(150_000, 2_000_000), strat, vmodel::lockstep::case_json, |c| match vmodel::sinkkinds::run(c) {
-        Ok(nt) => {
-            if nt && !*ctx.stopped.borrow() {
-                *n.borrow_mut() += 1;
-                ctx.nontrivial(fingerprint(&("sink-kinds", &c.cfg, &c.ops)), || vmodel::lockstep::case_json(c));
-            }
-            Ok(())
-        }
-        Err((e, o)) => Err(Failure::new("sink-kinds", vmodel::lockstep::case_json(c), e, o)),
-    });
-    ctx.class_n("sink kinds: sessions with a dispatch", *n.borrow());
+    // the same sessions on other shapes of the API (sink types, buffer kinds, builder orders): flushed on every one of them
+    super::shapes::stage(ctx, ctx.tier.pick(150_000, 2_000_000), opts(ctx.tier), SETS, vmodel::sinkkinds::Diff::Flush);
 }
